@@ -17,7 +17,7 @@ use libc::{
 use std::net::{TcpListener, TcpStream};
 use std::os::unix::io::{AsRawFd, RawFd};
 use std::sync::atomic::{AtomicBool, Ordering};
-use std::sync::Arc;
+use std::sync::{Arc, Mutex};
 use std::{io, ptr};
 
 #[repr(align(64))]
@@ -28,6 +28,7 @@ struct Handle {
     fd: RawFd,
     epfd: RawFd,
     closed: AtomicBool,
+    reaper: Arc<Reaper>,
 }
 
 struct EpollJob {
@@ -49,6 +50,7 @@ impl Task for EpollJob {
         }
 
         // close the connection
+        let reaper = Arc::clone(&handle.reaper);
         unsafe {
             let _ = epoll_ctl(handle.epfd, EPOLL_CTL_DEL, handle.fd, ptr::null_mut());
             let stream = *Box::from_raw(handle.stream_ptr);
@@ -58,6 +60,46 @@ impl Task for EpollJob {
             }
         }
         handle.closed.store(true, Ordering::Release);
+
+        // Hand the record over to the event loop, which frees it once the batch of events it is
+        // processing is done (only then can no harvested event refer to it any more).
+        reaper.dead.lock().unwrap().push(self.handle_ptr);
+        reaper.wake();
+    }
+}
+
+/// Records of closed connections waiting to be freed by the event loop.
+struct Reaper {
+    dead: Mutex<Vec<u64>>, // *mut Handle as u64
+    wake_fd: RawFd,        // eventfd registered in the epoll set
+}
+
+impl Reaper {
+    fn wake(&self) {
+        let one: u64 = 1;
+        unsafe {
+            let _ = libc::write(self.wake_fd, &one as *const u64 as *const libc::c_void, 8);
+        }
+    }
+
+    fn drain_wake(&self) {
+        let mut counter: u64 = 0;
+        unsafe {
+            let _ = libc::read(
+                self.wake_fd,
+                &mut counter as *mut u64 as *mut libc::c_void,
+                8,
+            );
+        }
+    }
+
+    /// Frees the records of connections closed so far. Must only be called by the event loop
+    /// between two batches of events.
+    fn free_dead(&self) {
+        let dead = std::mem::take(&mut *self.dead.lock().unwrap());
+        for ptr in dead {
+            unsafe { drop(Box::from_raw(ptr as *mut Handle)) };
+        }
     }
 }
 
@@ -65,13 +107,17 @@ impl Server {
     pub fn serve_epoll(self) -> io::Result<()> {
         // Tokens used in epoll_event.u64 (never equal to real heap addresses)
         const LISTENER_TOKEN: u64 = 1;
+        const WAKE_TOKEN: u64 = 2;
 
         let (listener, epfd) = self.create_listener(LISTENER_TOKEN)?;
+        let reaper = Arc::new(Reaper {
+            dead: Mutex::new(Vec::new()),
+            wake_fd: create_wake_fd(epfd, WAKE_TOKEN)?,
+        });
         let worker_pool: ThreadPool<EpollJob> = ThreadPool::new(self.thread_count);
 
         let max_events = self.epoll_queue_max_events as i32;
         let mut events = vec![epoll_event { events: 0, u64: 0 }; max_events as usize];
-        let mut stale_ptrs = Vec::with_capacity(self.epoll_queue_max_events.max(512));
 
         loop {
             let n = unsafe { epoll_wait(epfd, events.as_mut_ptr(), max_events, -1) };
@@ -107,6 +153,7 @@ impl Server {
                             epfd,
                             fd,
                             closed: AtomicBool::new(false),
+                            reaper: Arc::clone(&reaper),
                         });
                         let handle_ptr = Box::into_raw(handle) as u64;
 
@@ -127,26 +174,26 @@ impl Server {
                             }
                         }
                     }
+                } else if token == WAKE_TOKEN {
+                    // a worker closed a connection: its record is freed after this batch
+                    reaper.drain_wake();
                 } else {
                     let handle_ptr = token as *mut Handle;
                     let handle = unsafe { &*handle_ptr };
-                    if handle.closed.load(Ordering::Acquire) {
-                        stale_ptrs.push(handle_ptr);
-                    } else if handle
-                        .in_flight
-                        .compare_exchange(false, true, Ordering::Acquire, Ordering::Relaxed)
-                        .is_ok()
+                    // a stale event of a connection closed meanwhile is ignored
+                    if !handle.closed.load(Ordering::Acquire)
+                        && handle
+                            .in_flight
+                            .compare_exchange(false, true, Ordering::Acquire, Ordering::Relaxed)
+                            .is_ok()
                     {
                         worker_pool.execute(EpollJob { handle_ptr: token });
                     }
                 }
             }
-            if !stale_ptrs.is_empty() {
-                for ptr in &stale_ptrs {
-                    unsafe { drop(Box::from_raw(*ptr)) };
-                }
-                stale_ptrs.clear();
-            }
+            // Every event of this batch has been processed and closed connections were removed
+            // from the epoll set before their record was queued: nothing refers to them any more.
+            reaper.free_dead();
         }
     }
 
@@ -167,4 +214,19 @@ impl Server {
         }
         Ok((listener, epfd))
     }
+}
+
+fn create_wake_fd(epfd: RawFd, token: u64) -> io::Result<RawFd> {
+    let fd = unsafe { libc::eventfd(0, libc::EFD_NONBLOCK | libc::EFD_CLOEXEC) };
+    if fd == -1 {
+        return Err(io::Error::last_os_error());
+    }
+    let mut ev = epoll_event {
+        events: EPOLLIN as u32,
+        u64: token,
+    };
+    if unsafe { epoll_ctl(epfd, EPOLL_CTL_ADD, fd, &mut ev) } == -1 {
+        return Err(io::Error::last_os_error());
+    }
+    Ok(fd)
 }
